@@ -18,15 +18,11 @@ import traceback
 sys.setrecursionlimit(1000)  # CPython's default, stated explicitly: C05's cold long contexts rely on it
 
 from vf import core  # noqa: E402
-from vf.core import Ctx, HarnessError  # noqa: E402
+from vf.core import Ctx, Found, HarnessError  # noqa: E402
 
 sys.path.insert(0, core.REPO_ROOT)
 
 MAX_ROUNDS = 4
-
-
-class Found(Exception):
-    pass
 
 
 def load_known(pid):
